@@ -28,7 +28,10 @@ demo_without=pass; (cd $WT && timeout 600 go test -vet=off -count=1 -run 'Seed' 
 git -C $WT apply $OUT/patch.diff 2>/dev/null || git -C $WT apply --3way $OUT/patch.diff 2>/dev/null
 for f in $demos; do rm -f $WT/$f; done
 TIER=${2:-quick}
+# the run against the changed tree must not replace the evidence of the unchanged tree
+EV=/verif/evidence/${ID%U}.json; [ -f $EV ] && cp $EV $EV.keep
 out=$(cd /verif && VERIF_REPO=$WT ./check $ID $TIER 2>&1); rc=$?
+[ -f $EV.keep ] && mv $EV.keep $EV
 verdict=MISSED; if [ $rc -eq 1 ] && echo "$out" | grep -q "^VIOLATION property=$ID"; then verdict=CAUGHT; fi
 first=$(echo "$out" | grep -A1 "^VIOLATION" | sed -n 2p | cut -c1-300)
 cp $OUT/patch.diff $DST/patch.diff
